@@ -634,6 +634,12 @@ pub fn worker(ctx: &WorkerCtx) -> Report {
             rep.sample(Json::obj().set("program", prog.to_json()).set("history", Json::Arr(history.iter().map(|h| Json::Str(format!("{h:?}"))).collect())));
         }
         for (kind, d) in out.violations {
+            if kind == "stale-after-earlier-cycle-membership" && !has_fw && ids.len() <= 3 && std::env::var("QV_C06_SMALL").is_ok() {
+                eprintln!("SMALL {} | {} | {:?} | {}", d.render(), prog.to_json().render(), history, case);
+            }
+            if kind == "stale-after-earlier-cycle-membership" {
+                rep.count(if has_fw { "tainted_wrong_values_in_programs_with_firewalls" } else { "tainted_wrong_values_in_normal_only_programs" }, 1);
+            }
             let sig = if kind == "stale-after-earlier-cycle-membership" { F1_SIG.to_string() } else { format!("C06/{kind}") };
             if seen.insert(sig.clone()) {
                 ctx.violation(&Violation {
